@@ -26,6 +26,7 @@ type Scenario struct {
 	Name string
 	N    uint8
 
+	UpdateFreq int           // freq=<n>: every n-th response updates the adaptive timeout (0 = default, 100)
 	Static     time.Duration // static resend timeout (0 = adaptive)
 	StaticS    time.Duration // the server's static resend timeout when it differs (RS=)
 	Handshake  time.Duration // handshake timeout (0 = default)
@@ -81,6 +82,9 @@ func (sc *Scenario) timeoutOpts(ping, pong time.Duration, static time.Duration) 
 	}
 	if sc.Handshake > 0 {
 		to = append(to, gbn.WithHandshakeTimeout(sc.Handshake))
+	}
+	if sc.UpdateFreq > 0 {
+		to = append(to, gbn.WithTimeoutUpdateFrequency(sc.UpdateFreq))
 	}
 	if ping > 0 {
 		to = append(to, gbn.WithKeepalivePing(ping, pong))
@@ -230,6 +234,14 @@ func common(sc *Scenario, p params) {
 		sc.PingC, sc.PongC = ping+2*time.Second, pong
 	}
 	sc.MaxChunk = p.int("chunk", 0)
+	sc.UpdateFreq = p.int("freq", 0)
+	if p.has("lat") {
+		sc.Latency = p.dur("lat", 0)
+	}
+	if p.has("tmlive") {
+		// judged on how the connection feeds its timeout manager (C20)
+		sc.Monitors = append(sc.Monitors, monTimeoutSamples)
+	}
 	sc.Cfg.LockPoints = p.has("locks")
 	// Time-bound oracles assume goroutines are not starved: virtual time
 	// only advances when no thread can run, unless the scenario asks for
